@@ -254,7 +254,30 @@ fn check_one(case: &CaseData, threads: usize, default_validation: bool) -> Resul
     Ok((status, before, after))
 }
 
-fn check_confined(case: &CaseData, before: &Snap, after: &Snap, cfg: &str) -> Option<Verdict> {
+fn lenient(path: &[u8]) -> Vec<u8> {
+    let comps: Vec<Vec<u8>> =
+        split_slash(path).into_iter().filter(|c| !c.is_empty() && *c != b".").map(|c| c.to_vec()).collect();
+    join(&comps)
+}
+fn related(a: &[u8], b: &[u8]) -> bool {
+    a == b || (a.starts_with(b) && a.get(b.len()) == Some(&b'/')) || (b.starts_with(a) && b.get(a.len()) == Some(&b'/'))
+}
+/// the paths of entries that share their place with another entry (duplicates, file/directory
+/// conflicts): with more than one thread what ends up there depends on the schedule (two threads
+/// writing the same file can even interleave), so only confinement is judged for them
+fn conflicted_paths(case: &CaseData) -> Vec<Vec<u8>> {
+    let paths: Vec<Vec<u8>> = case.entries.iter().map(|e| lenient(&e.path)).collect();
+    paths
+        .iter()
+        .enumerate()
+        .filter(|(i, a)| paths.iter().enumerate().any(|(j, b)| *i != j && related(a, b)))
+        .map(|(_, a)| a.clone())
+        .collect()
+}
+
+fn check_confined(case: &CaseData, before: &Snap, after: &Snap, cfg: &str, threads: usize) -> Option<Verdict> {
+    let conflicted = if threads > 1 { conflicted_paths(case) } else { Vec::new() };
+    let schedule_dependent = |rel: &[u8]| conflicted.iter().any(|c| related(rel, c));
     for (p, v) in before.iter() {
         if protected(p) && after.get(p) != Some(v) {
             let class = if p.starts_with(b"S/R/") { "wrote-into-dotgit" } else { "escaped-destination" };
@@ -277,6 +300,9 @@ fn check_confined(case: &CaseData, before: &Snap, after: &Snap, cfg: &str) -> Op
             continue;
         }
         let rel = &p[4..];
+        if schedule_dependent(rel) {
+            continue;
+        }
         let same_path: Vec<&Item> = norm.iter().filter(|(n, _)| n.as_deref() == Some(rel)).map(|(_, e)| *e).collect();
         // directories are also made for the leading components of an entry that is refused later on
         let below = case.entries.iter().any(|e| {
@@ -318,7 +344,7 @@ fn check_confined(case: &CaseData, before: &Snap, after: &Snap, cfg: &str) -> Op
             None => true,
             Some(a) => (a.0 == b'd') != (v.0 == b'd') || (a.0 == b'l') != (v.0 == b'l') || (a.0 == b'l' && a.1 != v.1),
         };
-        if !changed {
+        if !changed || schedule_dependent(rel) {
             continue;
         }
         if !overwrite {
@@ -428,7 +454,7 @@ pub fn prop(c: &Case) -> Verdict {
         if before != after || status != "ok f=0 c=[] e=[]" {
             nontrivial = true;
         }
-        if let Some(v) = check_confined(&case, &before, &after, cfg) {
+        if let Some(v) = check_confined(&case, &before, &after, cfg, threads) {
             return v;
         }
         if sane {
